@@ -164,6 +164,9 @@ ECO_NAMES = ["requests[security]", "Zope.Interface[Test_Extra]", "[Foo_Bar]x]", 
              "left-pad@~1.3", "serde/derive", "tokio+full", "name; python_version<'3'", "egg#egg=foo", "Newtonsoft.Json.13.0.1.nupkg", "rails-7.0.gem",
              "foo-1.0-py3-none-any.whl", "commons-io-2.11.jar", "a.tar.gz", "v1.2.3", "1.0.0-SNAPSHOT", "@types/node@18", "github.com/a/b/v2@v2.0.1",
              "(group)", "{name}", "name*", "~user", "name!", "$name", "na,me", "name\\path", "\"quoted\"", "<angle>", "name|pipe", "`tick`", "^caret",
+             "node_modules/@babel/core", "node_modules/left-pad", "node_modules/send/node_modules/ms", "vendor/github.com/a/b", "site-packages/requests",
+             "org/apache/commons/commons-io", "gems/rake-13.0.6", "registry/src/index.crates.io/serde-1.0", "npm:@scope/pkg", "git+https://github.com/a/b.git",
+             "file:../local", "workspace:*", "src/github.com/a/b", "pkg/mod/github.com/a/b@v1.2.3", "packages/Newtonsoft.Json.13.0.3",
              "name.git", "name.GIT", "lib.so.6", "pkg:npm/foo", "pkg%3Anpm", "file:///x", "C:\\x", "name ", " name", "na me", "name\t", "Name.Exe"]
 CLS_TYPE = ["t", "cargo", "gem", "golang", "maven", "npm", "nuget", "pypi", "deb"]
 CLS_NS = [[], ["acme"], ["@scope"], ["github.com", "phylum-dev"], ["%40scope%2Fevil"], ["\u00dcn\u00ef", "\u01c5" + KEL], ["a:b c&d=e"],
@@ -493,7 +496,9 @@ def rand_builder_case(r, shape, maxsteps=6):
                 ("q:%s:%s" % (hx("checksum"), hx("sha1:00ff")), "pq:retlt.%s" % hx("checksum")),
                 ("q:%s:%s" % (hx("checksum"), hx("sha1:00ff,md5:AA")), "pq:ent.%s.orm.%s" % (hx("Checksum"), hx(""))),
                 ("q:%s:%s" % (hx("arch"), hx("x86")), "pq:imut.%s" % hx("")),
-                ("q:%s:%s" % (hx("zz"), hx("1")), "pq:retne")])
+                ("q:%s:%s" % (hx("zz"), hx("1")), "pq:retne"),
+                ("q:%s:%s" % (hx("download_url"), hx(LONGV)), "pq:trunc.%s.%s" % (hx("Download_URL"), r.pick(["t", "d", "r", "p"]))),
+                ("q:%s:%s" % (hx("checksum"), hx("sha256:" + "00" * 32)), "pq:trunc.%s.t" % hx("checksum"))])
             steps[at:at] = [ensure, "rb", edit]
         else:
             steps[at:at] = ["rb"]
@@ -523,10 +528,13 @@ def st_builder_multishape(ctx, n, shapes, label="builder-multi"):
 
 # ---------------------------------------------------------------- qualifier scripts
 
+LONGV = "https://example.com/downloads/name-1.0.0.tar.gz"      # longer than any inline small-string representation
+
+
 def rand_quals_step(r, sep=":"):
     k = lambda: hx(r.pick(KEY_UNIVERSE))
-    v = lambda: hx(r.pick(["", "1", "2", "v", "x y", "é"]))
-    c = r.below(30)
+    v = lambda: hx(r.pick(["", "1", "2", "v", "x y", "é", LONGV]))
+    c = r.below(31)
     J = sep.join
     if c < 6:
         return J(["ins", k(), v()])
@@ -567,6 +575,8 @@ def rand_quals_step(r, sep=":"):
         return J(["inst", str(r.below(9)), v()])
     if c == 28:
         return J(["ins", k(), v()])
+    if c == 30:
+        return J(["trunc", k(), r.pick(["t", "d", "r", "p"])])
     if r.chance(1, 2):
         # try_insert_typed of a checksum that may be refused (odd / non-hex digits): then nothing may change
         return J(["tit", hx(r.pick(["sha1", "MD5", "a:b", "", "sha1,md5", "a,b:c", ",", " x"])), hx(r.pick(["00ff", "AB", "zz", "0", "", "0g"]))])
